@@ -287,6 +287,39 @@ theorem definition_cdses_exact (len : Int) (ops : List Op) (r : Rec) (hok : Hist
     gid ∈ r.definition d.id ↔ gid ∈ specDefinition r.genes d :=
   definition_exact hrun hok a ha d hd hk gid
 
+/-- product names are compared for equality: a gene whose core annotations do not name the protocluster's
+    product itself — a shorter name contained in it ("NRPS" vs "NRPS-like"), a longer one, anything else — is
+    never one of its defining genes, wherever it lies and in whatever order things were added -/
+theorem definition_needs_exact_product (len : Int) (ops : List Op) (r : Rec) (hok : HistoryOK ops) (hrun : run len ops = .ok r)
+    (a : AreaT) (ha : a ∈ (liveAfter ops).areas) (d : AreaT) (hd : d ∈ nodes a) (hk : d.kind = .proto)
+    (g : Gene) (hg : g ∈ r.genes) (hne : ∀ p ∈ g.cores, p ≠ d.product) : g.id ∉ r.definition d.id := by
+  intro hm
+  have inv := (run_inv hok.opOK hrun).core
+  have := (definition_cdses_exact len ops r hok hrun a ha d hd hk g.id).1 hm
+  simp only [specDefinition, List.mem_map, List.mem_filter, Bool.and_eq_true] at this
+  obtain ⟨g', ⟨hg', _, hp⟩, hid⟩ := this
+  have := gene_of_id inv.ids hg hg' hid
+  subst this
+  have hp' : d.product ∈ g'.cores := by simpa using hp
+  exact hne _ hp' rfl
+
+/-- a sideloaded protocluster (`SideloadedProtocluster`) never has defining genes -/
+theorem sideloaded_defines_nothing (len : Int) (ops : List Op) (r : Rec) (hok : HistoryOK ops) (hrun : run len ops = .ok r)
+    (a : AreaT) (ha : a ∈ opsAreas ops) (d : AreaT) (hd : d ∈ nodes a) (hk : d.kind = .sideProto) :
+    r.definition d.id = [] := by
+  have inv := (run_inv hok.opOK hrun).core
+  rw [List.eq_nil_iff_forall_not_mem]
+  intro gid hm
+  rw [mem_definition] at hm
+  obtain ⟨g, _, d', ⟨s, hl⟩, hdef, hx⟩ := inv.defsSound _ hm
+  injection hx with h1 _
+  obtain ⟨_, a', ha', hd'⟩ := hl.contained
+  obtain ⟨_, _, _, e4⟩ := hok.ids a' ha' a ha d' hd' d hd h1.symm
+  simp only [defines, Bool.and_eq_true, beq_iff_eq] at hdef
+  rw [hdef.1.1] at e4
+  rw [hk] at e4
+  cases e4
+
 /-- the pre / cross / post-origin sections of a region of the record: its genes, each in exactly the section
     `specSection` names (crossing genes → cross; in an origin-spanning region the genes of the part after the
     origin → post, the others → pre; in an ordinary region → post) -/
@@ -322,6 +355,55 @@ theorem cds_children_fresh (len : Int) (ops : List Op) (aid : Nat) (r' : Rec) (h
   simp only [step, pure, Except.pure] at hs
   injection hs with hs; subst hs
   exact ⟨r, hr, (peekArea_spec (run_inv hok hr).cache aid).2.2⟩
+
+/-- `cds in collection` is true exactly for the genes the collection's location contains (for every collection
+    in the record and every child of one) -/
+theorem cds_in_collection_exact (len : Int) (ops : List Op) (r : Rec) (hok : HistoryOK ops) (hrun : run len ops = .ok r)
+    (a : AreaT) (ha : a ∈ (liveAfter ops).areas) (d : AreaT) (hd : d ∈ nodes a) (gid : Nat) :
+    (r.children d.id).contains gid = true ↔ gid ∈ specChildren r.genes d := by
+  rw [List.contains_iff_mem]
+  exact area_children_exact len ops r hok hrun a ha d hd gid
+
+/-- … and the call itself reports that (it reads the live list, no cache is involved) -/
+theorem cds_in_collection_fresh (len : Int) (ops : List Op) (aid gid : Nat) (r' : Rec)
+    (hrun : run len (ops ++ [.hasCds aid gid]) = .ok r') :
+    ∃ r, run len ops = .ok r ∧ r'.log = r.log ++ [[[if (r.children aid).contains gid then 1 else 0]]] := by
+  obtain ⟨r, hr, hs⟩ := run_snoc hrun
+  simp only [step, pure, Except.pure] at hs
+  injection hs with hs; subst hs
+  exact ⟨r, hr, rfl⟩
+
+/-- `cds_children.index(cds)` after any history: the position of the gene in the collection's current list
+    (its first and only entry) … -/
+theorem children_index_exact (len : Int) (ops : List Op) (aid gid : Nat) (r' : Rec) (hok : ∀ op ∈ ops, OpOK op)
+    (hrun : run len (ops ++ [.indexOf aid gid]) = .ok r') :
+    ∃ r i, run len ops = .ok r ∧ r'.log = r.log ++ [[[i]]] ∧ (r.children aid)[i]? = some gid ∧
+      ∀ j < i, (r.children aid)[j]? ≠ some gid := by
+  obtain ⟨r, hr, hs⟩ := run_snoc hrun
+  obtain ⟨i, hi, e⟩ := indexOf_ok hs
+  obtain ⟨ce, _, hl, _⟩ := peekRegen_spec (run_inv hok hr).cache aid
+  have hch : (peekRegen r aid).children aid = r.children aid := by simp only [Rec.children, ce.members]
+  rw [hch] at hi
+  obtain ⟨h1, h2⟩ := indexIn_some hi
+  exact ⟨r, i, hr, by rw [e]; simp only [hl], h1, h2⟩
+
+/-- … and `IndexError` exactly when the collection does not list the gene -/
+theorem children_index_error (len : Int) (ops : List Op) (aid gid : Nat) (r : Rec) (hok : ∀ op ∈ ops, OpOK op)
+    (hrun : run len ops = .ok r) :
+    run len (ops ++ [.indexOf aid gid]) = .error "IndexError" ↔ gid ∉ r.children aid := by
+  obtain ⟨ce, _, _, _⟩ := peekRegen_spec (run_inv hok hrun).cache aid
+  have hch : (peekRegen r aid).children aid = r.children aid := by simp only [Rec.children, ce.members]
+  have hstep : run len (ops ++ [.indexOf aid gid]) = indexOf r aid gid := by
+    simp only [run, List.foldlM_append, List.foldlM_cons, List.foldlM_nil, bind, Except.bind] at hrun ⊢
+    rw [hrun]
+    simp only [step]
+    cases indexOf r aid gid <;> rfl
+  rw [hstep, ← indexIn_none (x := gid) (l := r.children aid), ← hch]
+  unfold indexOf
+  simp only []
+  cases hf : indexIn gid ((peekRegen r aid).children aid) with
+  | none => simp [throw, throwThe, MonadExceptOf.throw]
+  | some i => simp [pure, Except.pure]
 
 /-! ### 9  build-order independence (histories of adding calls) -/
 
@@ -388,6 +470,14 @@ example : (run 1000 [.cds (g 0 910 920), .area (.mk 200 .sub (.compound [⟨900,
 example : (run 1000 [.cds (g 0 910 920), .area (.mk 200 .sub (.compound [⟨900, 1000, .fwd⟩, ⟨0, 50, .fwd⟩])
       (.simple ⟨0, 1, .fwd⟩) "" []), .cds (g 1 10 20), .peekArea 200, .clearSubs [], .peekCds]).toOption.map (·.log)
     = some [[[0, 1], [0], [], [1]], [[1, 0]]] := by
+  decide +kernel
+
+/-- product names: a gene that is core for "NRPS" only, inside the cores of an "NRPS-like" and an "NRPS"
+    protocluster, defines the second and not the first -/
+example : (run 1000 [.cds { id := 0, loc := .simple ⟨120, 180, .fwd⟩, cores := ["NRPS"] },
+      .area (.mk 100 .proto (.simple ⟨50, 500, .fwd⟩) (.simple ⟨100, 400, .fwd⟩) "NRPS-like" []),
+      .area (.mk 101 .proto (.simple ⟨60, 450, .fwd⟩) (.simple ⟨110, 350, .fwd⟩) "NRPS" [])]).toOption.map
+      (fun r => (r.definition 100, r.definition 101)) = some ([], [0]) := by
   decide +kernel
 
 end ASV.C08
